@@ -58,6 +58,11 @@ def rich(pure, cell):
       return UNCONSTRAINED
     if isinstance(cell, str):
       return Alt(cell)
+    if pure == "Int" and type(cell) is float:
+      # a float stored in an Int column is not of the column's type: formulas see alt text.
+      # (Reachable: redo of a Date/Numeric -> Int type change replays only the ModifyColumn,
+      # because the value-equal conversion 5.0 -> 5 is not a stored action; finding F-z.)
+      return Alt(str(cell))
     return cell
   if pure == "Bool":
     if isinstance(cell, str):
